@@ -43,6 +43,50 @@ var termMu sync.Mutex
 // SolveAll solves obligations in parallel. Phase 1 leaves out the quantified axioms of spec functions
 // (fewer hypotheses: unsat is still a proof); obligations that are not unsat then get the axioms in phase 2.
 func SolveAll(obls []*Obligation, dir string, timeout int) float64 {
+	total := solveAllWhole(obls, dir, timeout)
+	// split phase: an undecided obligation whose goal is a conjunction (one conjunct per exit of the function) is
+	// decided conjunct by conjunct; it is discharged iff every conjunct is.
+	for _, o := range obls {
+		if o.Cover || o.Status == "discharged" || o.Result.Status == "sat" || o.Goal.Op != "and" || len(o.Goal.Args) < 2 {
+			continue
+		}
+		var subs []*Obligation
+		for i, g := range o.Goal.Args {
+			so := *o
+			so.Name = fmt.Sprintf("%s~%d", o.Name, i)
+			so.Goal = g
+			so.Status = ""
+			so.Result = SolveResult{}
+			so.Candidate = ""
+			subs = append(subs, &so)
+		}
+		total += solveAllWhole(subs, dir, timeout)
+		all := true
+		var ms int64
+		var bad *Obligation
+		for _, so := range subs {
+			ms += so.Result.Ms
+			if so.Status != "discharged" {
+				all = false
+				if bad == nil || so.Result.Status == "sat" {
+					bad = so
+				}
+			}
+		}
+		if all {
+			o.Result = SolveResult{Status: "unsat", Solver: fmt.Sprintf("split(%d)", len(subs)), Ms: ms}
+			o.Candidate = ""
+		} else {
+			o.Result = bad.Result
+			o.Result.Ms = ms
+			o.Candidate, o.CandidateKind = bad.Candidate, bad.CandidateKind
+		}
+		finishStatus(o)
+	}
+	return total
+}
+
+func solveAllWhole(obls []*Obligation, dir string, timeout int) float64 {
 	// phase 0: non-linear arithmetic abstracted by uninterpreted functions (sound for unsat; fast)
 	var nl, rest []*Obligation
 	nlm := map[*Term]bool{}
